@@ -3,7 +3,7 @@
 evaluation of the getters and predicates, and Send + Sync instantiations.  rustc is the judge."""
 import json, os, sys
 
-def main(gen_json, outdir):
+def main(gen_json, outdir, repo='/repo'):
     en = json.load(open(gen_json))['enums']
     lays = en['AnyLayout']
     os.makedirs(os.path.join(outdir, 'src'), exist_ok=True)
@@ -13,10 +13,10 @@ version = "0.1.0"
 edition = "2021"
 
 [dependencies]
-pc-keyboard = { path = "/repo" }
+pc-keyboard = { path = "%s" }
 
 [workspace]
-''')
+''' % repo)
     os.makedirs(os.path.join(outdir, '.cargo'), exist_ok=True)
     open(os.path.join(outdir, '.cargo', 'config.toml'), 'w').write('[net]\noffline = true\n')
     items = []   # (id, code)
